@@ -381,7 +381,9 @@ def check_config(ctx, F, tag, cfg):
             ok1 = i1 is not None and m(Bin("Add", Param(1), Const(1)), i1) and len(pso) >= 64 + 1
             # (relative_rank << 8) + (x & 0xFF): relative_rank <= 7 under the contract (reviewed), so the index is < 8 * 256 = len
             env2 = {}
-            ok2 = i2 is not None and m(Bin("Add", Bin("Shl", Bind("rr"), Const(8)), ANY), i2, env2) and len(sib) == 8 * 256
+            # (`+` or `|`: the byte is below 256 and the shifted rank has its low 8 bits clear, so the two agree)
+            ok2 = i2 is not None and (m(Bin("Add", Bin("Shl", Bind("rr"), Const(8)), ANY), i2, env2) or
+                                      m(Bin("BitOr", Bin("Shl", Bind("rr"), Const(8)), ANY), i2, env2)) and len(sib) == 8 * 256
             if ok2:
                 # the byte: `x & 0xFF`, `x as u8`, ... anything that is at most 255 by construction (casts kept: they carry the bound)
                 import c08
